@@ -184,12 +184,37 @@ class Ctx:
         return reached, total, errors, wall, notes
 
     def validate(self, module, cfg_text, trace_path, name, describe, replay_meta, timeout=1800,
-                 max_rejections=3, run_key="run"):
+                 max_rejections=3, run_key="run", _chunked=False):
         """Validate an ndjson trace against Trace_<module>.  On rejection: classify the first
         unmatched record (known finding / violation), write a replay file, drop that run, go on."""
         recs = [json.loads(l) for l in open(trace_path) if l.strip()]
         if not recs:
             raise ToolError("empty trace %s" % trace_path)
+        CHUNK = 200000
+        if len(recs) > CHUNK and not _chunked:
+            # very long traces are validated in chunks of whole runs (every run starts from its own reset record);
+            # TLC's JSON loader and the JVM heap do not like millions of records at once
+            chunks, cur, cur_run = [], [], object()
+            for r in recs:
+                if r.get(run_key) != cur_run and len(cur) >= CHUNK:
+                    chunks.append(cur)
+                    cur = []
+                cur_run = r.get(run_key)
+                cur.append(r)
+            if cur:
+                chunks.append(cur)
+            del recs
+            ok = True
+            for k, ch in enumerate(chunks):
+                cp = os.path.join(self.work, "%s-chunk%d.ndjson" % (name, k))
+                with open(cp, "w") as f:
+                    for r in ch:
+                        f.write(json.dumps(r) + "\n")
+                chunks[k] = None
+                ok = self.validate(module, cfg_text, cp, "%s-chunk%d" % (name, k), describe, replay_meta, timeout=timeout,
+                                   max_rejections=max_rejections, run_key=run_key, _chunked=True) and ok
+                os.remove(cp)
+            return ok
         self._count_distinct(recs, describe)
         if not self.cov["samples"]:
             self.cov["samples"] = recs[1:4]
